@@ -18,6 +18,11 @@ CHECKS.update({
  "C09": ("7/C09", "model-based testing with scoped-path bias: let-chain reader vs layer model", "Same engine as C05 with 80% scoped operations over 0-3 let layers: layer count, per-layer attribute trees, body and wrapper tokens are compared with the model after every step.", TB + MODEL),
  "C19": ("7/C19", "metamorphic relations (idempotence, inverse, commutativity) over model-chosen well-formed edits", "Four algebraic laws are evaluated on canonical generated documents, on one object and with re-parse; no external oracle is needed beyond text/tree equality.", TB + MODEL),
 })
+CHECKS.update({
+ "C15": ("7/C15", "structural-snapshot purity oracle + differential runs across fresh interpreters, hash seeds, working directories and 8 threads", "Purity is decided by comparing a deep structural snapshot of the tree before/after rebuild and repeated rebuild texts on generated inputs; history, thread, hash-seed and cwd independence by per-item digest equality between this process, child interpreters and threads.", TB + " CPython's scheduler is not controlled: thread interleavings are sampled."),
+ "C16": ("7/C16", "differential testing CLI (in-process entry point on stdin and -f, plus subprocess sample) against the library calls", "Generated inputs x commands are run through the CLI on both channels and compared with the library's verdict/text, including the exact line-terminator rule and the emitted-file-passes-test clause.", TB + MODEL),
+ "C17": ("7/C17", "generated directory trees with decoys; posixpath reference resolver; cwd x entry-spelling matrix", "Import chains over generated directory layouts are followed from several working directories and entry spellings and compared with a pure path computation; error classes are checked by exception type.", "Real temporary directories; os.chdir is confined to the shard process."),
+})
 for pid, mod in [("C01", "round trip: token-sequence equality after rebuild"), ("C03", "round trip: comment multiset/order/barrier-position oracle"), ("C06", "round trip: second-pass fixed point + CLI test"), ("C18", "round trip: lexical spacing normal-form scan")]:
     pass
 
